@@ -194,6 +194,9 @@ func (sc *RevScenario) evalLiveness(rc *ruleCtx, obs *RevObs, leakRule, readRule
 // cancelled, if that happened while the call was running.
 func (sc *RevScenario) cancelInstant(obs *RevObs, co *CallObs) (time.Time, bool) {
 	var tc time.Time
+	if !sc.cancelApplies(co.World, co.Rep) {
+		return tc, false
+	}
 	switch sc.Cancel {
 	case CancelBefore:
 		tc = co.TStart
@@ -481,7 +484,15 @@ func runC17(t *Tape, st *Stats, tier string) *RunResult {
 		// failed although this caller's context was live, its cache calls did
 		// not fail and NOT ONE request of this caller went out to the location
 		// was refused on the strength of somebody else's experience
-		if sc.Cancel == CancelNone && sc.PanicAt == "" && sc.Fetcher != FetchStub && len(obs.Calls) > 1 {
+		if (sc.Cancel == CancelNone || sc.CancelOnly != 0) && sc.PanicAt == "" && sc.Fetcher != FetchStub && len(obs.Calls) > 1 {
+			cancelled := map[int]bool{} // caller keys the cancellation applies to
+			if sc.Cancel != CancelNone {
+				for _, co := range obs.Calls {
+					if sc.cancelApplies(co.World, co.Rep) {
+						cancelled[co.World.callerKeyOf(co.Rep)] = true
+					}
+				}
+			}
 			normal := map[string]bool{}
 			for _, w := range sc.Worlds {
 				for _, cp := range w.Certs {
@@ -497,13 +508,25 @@ func runC17(t *Tape, st *Stats, tier string) *RunResult {
 				cops = obs.Cache.AllOps()
 			}
 			for _, f := range obs.Fetches {
-				if !f.Done || f.Err == "" || !normal[f.URL] {
+				if !f.Done || f.Err == "" || !normal[f.URL] || cancelled[f.Caller] {
 					continue
 				}
 				rc.anteTrue("C17.R5")
 				asked, cacheFailed := false, false
 				for _, x := range obs.Net.All() {
-					if x.Rec.Begun && x.Rec.CallerID == f.Caller && x.URL == f.URL && !x.Rec.TBegin.Before(f.TBegin) && !x.Rec.TBegin.After(f.TEnd) {
+					if !x.Rec.Begun || x.URL != f.URL || cancelled[x.Rec.CallerID] {
+						continue
+					}
+					// its own request, or (a fetcher may let overlapping identical
+					// downloads share one request) an uncancelled caller's request
+					// that was in flight while this Fetch ran
+					end := x.Rec.TReturn
+					for _, c := range []time.Time{x.Rec.TBodyEnd, x.Rec.TClosed} {
+						if c.After(end) {
+							end = c
+						}
+					}
+					if !x.Rec.TBegin.After(f.TEnd) && !end.Before(f.TBegin) {
 						asked = true
 					}
 				}
@@ -531,9 +554,9 @@ func runC17(t *Tape, st *Stats, tier string) *RunResult {
 			}
 		}
 		// R5 (b): each caller's results equal Ref on what that caller observed
-		if sc.Cancel == CancelNone {
+		if sc.Cancel == CancelNone || sc.CancelOnly != 0 {
 			for _, co := range obs.Calls {
-				if !co.Panicked {
+				if !co.Panicked && (sc.Cancel == CancelNone || !sc.cancelApplies(co.World, co.Rep)) {
 					sc.evalRevCall(rc, obs, co)
 				}
 			}
